@@ -72,11 +72,15 @@ impl<const BITS: usize, const LIMBS: usize> Uint<BITS, LIMBS> {
             if let Some(value) = base.checked_pow(result) {
                 if value > self {
                     assert!(!result.is_zero());
+                    #[cfg(recmo_uint_verif)]
+                    crate::verif_hooks::hit(crate::verif_hooks::Hook::log_decrement);
                     result -= Self::ONE;
                     continue;
                 }
             } else {
                 // Overflow, so definitely larger than `value`
+                #[cfg(recmo_uint_verif)]
+                crate::verif_hooks::hit(crate::verif_hooks::Hook::log_decrement);
                 result -= Self::ONE;
             }
             break;
@@ -84,6 +88,8 @@ impl<const BITS: usize, const LIMBS: usize> Uint<BITS, LIMBS> {
         while let Some(trial) = result.checked_add(Self::ONE) {
             if let Some(value) = base.checked_pow(trial) {
                 if value <= self {
+                    #[cfg(recmo_uint_verif)]
+                    crate::verif_hooks::hit(crate::verif_hooks::Hook::log_increment);
                     result = trial;
                     continue;
                 }
